@@ -245,7 +245,8 @@ func SpinnersInDump(dump []byte) map[string]string {
 		if j := bytes.IndexByte(st, ','); j >= 0 {
 			st = st[:j]
 		}
-		if string(st) != "running" && string(st) != "runnable" {
+		if string(st) != "running" && string(st) != "runnable" && string(st) != "sleep" {
+			// "sleep": a delay injected by the schedule-point handler, which the loop passes through on every turn
 			continue
 		}
 		id := string(head[len("goroutine "):l])
@@ -255,7 +256,9 @@ func SpinnersInDump(dump []byte) map[string]string {
 			}
 			// the innermost frame outside the runtime must be library code: a goroutine that runs harness code called
 			// by the library (a job, a callback) is not the library's loop
-			if bytes.HasPrefix(ln, []byte("runtime.")) || bytes.HasPrefix(ln, []byte("sync.")) || bytes.HasPrefix(ln, []byte("sync/atomic.")) || bytes.HasPrefix(ln, []byte("internal/")) || bytes.HasPrefix(ln, []byte("time.")) || bytes.HasPrefix(ln, []byte("context.")) {
+			if bytes.HasPrefix(ln, []byte("runtime.")) || bytes.HasPrefix(ln, []byte("sync.")) || bytes.HasPrefix(ln, []byte("sync/atomic.")) || bytes.HasPrefix(ln, []byte("internal/")) || bytes.HasPrefix(ln, []byte("time.")) || bytes.HasPrefix(ln, []byte("context.")) ||
+				bytes.HasPrefix(ln, []byte("math/rand")) || bytes.HasPrefix(ln, []byte("github.com/aperturerobotics/util/verifhook.")) || bytes.HasPrefix(ln, []byte("verifharness/mon.handle")) {
+				// the schedule-point handler the library calls into is transparent
 				continue
 			}
 			if !bytes.HasPrefix(ln, []byte("github.com/aperturerobotics/util/")) || bytes.Contains(ln, []byte("/verifhook.")) {
